@@ -97,6 +97,16 @@ pub struct CertifiedKeyWrapper {
     fingerprint: Fingerprint,
 }
 
+/// Normal form under which certificate names are indexed: ASCII lower case,
+/// without the trailing dot of the absolute form.
+fn normalize_certificate_name(mut name: String) -> String {
+    name.make_ascii_lowercase();
+    if name.len() > 1 && name.ends_with('.') {
+        name.pop();
+    }
+    name
+}
+
 /// Convert an AddCertificate request into the Rustls format.
 /// Support RSA and ECDSA certificates.
 impl TryFrom<&AddCertificate> for CertifiedKeyWrapper {
@@ -115,6 +125,16 @@ impl TryFrom<&AddCertificate> for CertifiedKeyWrapper {
         } else {
             add.certificate.names.clone()
         };
+        // DNS names compare case-insensitively (RFC 4343) and rustls hands the
+        // resolver a lower-cased SNI without trailing dot. Key the certificate
+        // under that same normal form (the one `https.rs` also applies to the
+        // SAN snapshot), otherwise a certificate whose name is spelled
+        // `Example.COM` or `example.com.` is stored but never served: every
+        // handshake for it falls back to the default certificate.
+        let overriding_names: Vec<String> = overriding_names
+            .into_iter()
+            .map(normalize_certificate_name)
+            .collect();
 
         let expiration = add
             .expired_at
